@@ -10,6 +10,9 @@ pub struct CtxPayload { pub magic: u32 }
 impl Drop for CtxPayload { fn drop(&mut self) { assert!(self.magic == 0xC7); unsafe { CTX_DROPPED += 1 } } }
 pub type Ctx = CArc<CtxPayload>;
 
+/// strong count observed from inside the instance's destructor
+pub static mut COUNT_DURING_INSTANCE_DROP: usize = usize::MAX;
+impl Drop for Imp { fn drop(&mut self) { unsafe { COUNT_DURING_INSTANCE_DROP = self.watch.strong_count() } } }
 /// strong count observed from inside a by-value method
 pub static mut COUNT_DURING_CONSUME: usize = 0;
 
@@ -43,7 +46,7 @@ impl Parent for Imp {
     type OwnedG = Kid;
     fn child(&self, id: u32) -> Kid { Kid { id } }
     fn child_group(&self, id: u32) -> Kid { Kid { id } }
-    fn into_child(self) -> Kid { unsafe { COUNT_DURING_CONSUME = self.watch.strong_count() }; Kid { id: self.id ^ 1 } }
+    fn into_child(self) -> Kid { unsafe { COUNT_DURING_CONSUME = self.watch.strong_count() }; let id = self.id ^ 1; Kid { id } }
     fn finish(self) -> u32 { unsafe { COUNT_DURING_CONSUME = self.watch.strong_count() }; self.id }
     fn ping(&self) -> u32 { self.id }
 }
